@@ -215,4 +215,93 @@ class MMStub:
         return [(NONE, q)]
 
 
-ALL = [verify_init, verify_add, verify_as_memory_map]
+# ---- Cluster / Index: generator-based context managers around the scope stack -----------------------------------------------
+class ScopeStack:
+    """self._scope_stack: an arbitrary stack of symbolic height `base` plus the values pushed during this execution"""
+    def __init__(self, owner):
+        self.owner = owner
+
+    def _get(self, q):
+        return q.ghost[("stack", id(self.owner))]
+
+    def call_append(self, ex, recv, args, kwargs, q, node):
+        base, top = self._get(q)
+        q.ghost[("stack", id(self.owner))] = (base, top + (args[0],))
+        q.writes.append((self.owner.name, "_scope_stack"))
+        return [(NONE, q)]
+
+    def call_pop(self, ex, recv, args, kwargs, q, node):
+        base, top = self._get(q)
+        q.writes.append((self.owner.name, "_scope_stack"))
+        if top:
+            q.ghost[("stack", id(self.owner))] = (base, top[:-1])
+            return [(top[-1], q)]
+        ex.oblige("pop-from-nonempty-stack", q, base > 0, node)       # else IndexError: an internal error
+        q.ghost[("stack", id(self.owner))] = (base - 1, ())
+        return [(Opaque("older scope element"), q)]
+
+
+def verify_scope(which):
+    """Builder.Cluster(name) / Builder.Index(index), decorated with contextlib.contextmanager (assumed stdlib contract: the code
+    up to the single `yield` is __enter__, the code after it is __exit__, an exception of the with-body is raised at the yield).
+    REQUIRES on the with-body (frame): it leaves the scope stack as it found it - true for add() (proved: it only reads the
+    stack) and for nested Cluster/Index blocks by this same contract (induction on nesting depth)."""
+    fv = FnVerifier(f"csr.reg.Builder.{which}", AX)
+    fn = find_def(FILE, f"Builder.{which}")
+    ex = base_exec()
+    q = Path()
+    b, h = fresh_builder(q)
+    L0 = z3.Int("scope_depth")
+    q.assume(L0 >= 0)
+    b.init_fields["_scope_stack"] = SymObj("list", "self._scope_stack", model=ScopeStack(b))
+    q.ghost[("stack", id(b))] = (L0, ())
+    arg = Dyn("name" if which == "Cluster" else "index")
+    q.assume(arg.wf())
+    q.env.update({"self": b, ("name" if which == "Cluster" else "index"): arg})
+    valid = z3.And(arg.tag == T_STR, arg.nonempty) if which == "Cluster" else z3.And(arg.tag == T_INT, arg.ival >= 0)
+
+    def resume(node, p):
+        p.ghost["entered"] = True
+        exc = p.fork()
+        exc.ghost["body_raised"] = True
+        return [("fall", None, p), ("raise", "ExceptionOfTheWithBody", exc)]
+    ex.yield_resume = resume
+    ex.equal_hook = lambda a_, b_, node: z3.BoolVal(True) if a_ is b_ else None      # the popped object IS the pushed one
+    outs = ex.run(fn, q)
+    fv.paths = len(outs)
+    kinds = set()
+    for k, (val, p) in enumerate(ex.yields):
+        base, top = p.ghost[("stack", id(b))]
+        fv.add("inside-the-block-the-stack-is-the-entry-stack-plus-this-scope", f"yield{k}", p.pc,
+               z3.And(base == L0, z3.BoolVal(len(top) == 1 and top[0] is arg), valid))
+    for k, o in enumerate(outs):
+        p = o.path
+        base, top = p.ghost[("stack", id(b))]
+        restored = z3.And(base == L0, z3.BoolVal(top == ()))
+        lab = f"path{k}"
+        if o.kind == "raise" and not p.ghost.get("entered"):
+            kinds.add("refused")
+            fv.add("refusal-is-TypeError-for-an-invalid-scope-name", lab, p.pc, z3.And(z3.BoolVal(o.exc == "TypeError"), z3.Not(valid)))
+            fv.add("refusal-leaves-the-stack-unchanged", lab, p.pc, z3.And(restored, z3.BoolVal(not p.writes)))
+        elif o.kind == "raise":
+            kinds.add("body-raised")
+            fv.add("exception-of-the-body-propagates-unchanged", lab, p.pc, z3.BoolVal(o.exc == "ExceptionOfTheWithBody"))
+            fv.add("stack-restored-when-the-body-raises", lab, p.pc, restored)
+        else:
+            kinds.add("normal")
+            fv.add("entered-only-with-a-valid-scope-name", lab, p.pc, valid)
+            fv.add("stack-restored-on-normal-exit", lab, p.pc, restored)
+    fv.add("cover:refusal-normal-exit-and-exceptional-exit-all-explored", "vacuity", [], z3.BoolVal(kinds == {"refused", "body-raised", "normal"} and len(ex.yields) >= 1))
+    fv.add_engine_obligations(ex)
+    return fv
+
+
+def verify_cluster():
+    return verify_scope("Cluster")
+
+
+def verify_index():
+    return verify_scope("Index")
+
+
+ALL = [verify_init, verify_add, verify_as_memory_map, verify_cluster, verify_index]
